@@ -652,6 +652,9 @@ PTRef FarkasInterpolator::getFlexibleInterpolant(Real strengthFactor) {
     Real lowerBound = c1;
     Real upperBound = -c2;
     Real strengthDiff = upperBound - lowerBound;
+    // The two bounds coincide: the conflict rests on a strict inequality, and the non-strict inequality built below
+    // would be consistent with B when that strictness comes from the A side. The A-side sum itself is the interpolant.
+    if (strengthDiff.isZero()) { return itpA; }
     Real newConstant = lowerBound + (strengthDiff * strengthFactor);
     SRef itpSort = logic.getSortRef(sidesA.first);
     PTRef itp = logic.mkLeq(logic.mkConst(itpSort, newConstant), sidesA.first);
